@@ -74,7 +74,9 @@ def validate(chk, path, name, module="Trace_Lang", consts=None, fac="UStdFacR", 
     cfg = os.path.join(w, "%s.cfg" % module)
     if module in ("Trace_Parse", "Trace_Outcome"):
         write_cfg(cfg, dict(PARSER_REPAIRED, **(consts or {})), fac=None)
-    elif module in ("Trace_Display", "Trace_Facts", "Trace_Codec", "Trace_Cli"):
+    elif module == "Trace_Cli":
+        write_cfg(cfg, dict(consts or {}), fac=None, module_consts=("Names <- EnvNames", "Syms <- EnvSyms"))
+    elif module in ("Trace_Display", "Trace_Facts", "Trace_Codec"):
         write_cfg(cfg, dict(consts or {}), fac=None)
     elif module == "Trace_Describe":
         write_cfg(cfg, dict(DEFAULT_CONSTS, **dict(PARSER_REPAIRED, **(consts or {}))), fac=fac)
